@@ -46,6 +46,8 @@ class QueryWorld:
         self.cls, self.shape, self.choices, self.methods, self.functions = cls, shape, choices, methods, functions
         self.directed = shape.directed
         self.removal = removal
+        if not hasattr(self, "current_rel"):
+            self.current_rel = CLASSES.get(cls)
         self.effects = []
         self.presence_asked = {}
         self.wants_yields = False
